@@ -83,7 +83,7 @@ CHECKS.append(
          text="Error discipline of the stream machinery decided on every path of every function in scope: no Result of a call "
               "is dropped or left behind on an early return; adapter closures call the downstream callback at most once per "
               "item; SourceError never wraps a callback result and SinkError always does; variant-preserving re-wrapping; "
-              "try_for_each_item loops exactly while Ok(true); swapped-out buffers restored on all paths; item buffers are first-in-first-out; a writer's io::Error is never re-wrapped; no collector pre-allocates a size hint; filtering adapters do not forward the source's lower bound; the iterator adapters never poll their source again after an error or the end; a serializer that owns its writer flushes it before reporting success. Decides the "
+              "try_for_each_item loops exactly while Ok(true); swapped-out buffers restored on all paths; item buffers are first-in-first-out; a writer's io::Error is never re-wrapped; no collector pre-allocates a size hint; filtering adapters do not forward the source's lower bound; the iterator adapters never poll their source again after an error or the end; a serializer that owns its writer flushes it before reporting success; the streaming serializers built on rio's formatters call finish() on every path but a sink error; an adapter's size hint does not announce a source it will not poll again. Decides the "
               "structural necessary conditions of 'exact prefix, right blame', not the third-party parsers' bookkeeping.",
          note="Trusted: rustc MIR (destination types, resolved callees). A Result handed to another function or stored counts "
               "as delivered.",
@@ -95,8 +95,8 @@ CHECKS.append(
               "NotImplemented with nothing evaluated, every query dataset (FROM / FROM NAMED) refused up front; FILTER's keep-iff-truthy chain; binding "
               "consistency checks guard every insertion; positional DISTINCT key; GRAPH ?g pre-binding; SPARQL error semantics in "
               "eval (|| and && evaluate both operands, no evaluation error turned into a value, no evaluator/dataset Result "
-              "swallowed - one known finding: EXISTS, the active graph threaded unchanged); panic audit of the evaluator core AND of the function library / numeric tower / value comparison (armed after the hunt round: audited table, checked native arithmetic, directed rounding of decimals, no Option-al value compared, no Err item counted as a solution); four further constructs are reported as known findings (silent not-implemented function stubs, projection not restricting solutions, GRAPH without an existence test, the query's base IRI dropped). Decides these structural clauses, not equality with the algebra's multisets.",
-         note="Trusted: spargebra's algebra; rustc MIR. Assumption A13: built-in calls have the arity of their grammar production (true for queries parsed by spargebra; a spargebra::Query built by hand and passed through the public From impl is outside it). Known findings: EXISTS swallows NotImplemented/dataset errors; R13.18-R13.21 (KNOWN_FINDINGS.txt).",
+              "swallowed - one known finding: EXISTS, the active graph threaded unchanged); panic audit of the evaluator core AND of the function library / numeric tower / value comparison (armed after the hunt round: audited table, checked native arithmetic, directed rounding of decimals, no Option-al value compared, no Err item counted as a solution); six further constructs are reported as known findings (silent not-implemented function stubs, projection not restricting solutions, GRAPH without an existence test, the query's base IRI dropped, IN ending at the first error, BNODE ignoring its argument); TRIPLE() accepts the subject kinds the pattern matcher accepts. Decides these structural clauses, not equality with the algebra's multisets.",
+         note="Trusted: spargebra's algebra; rustc MIR. Assumption A13: built-in calls have the arity of their grammar production (true for queries parsed by spargebra; a spargebra::Query built by hand and passed through the public From impl is outside it). Known findings: EXISTS swallows NotImplemented/dataset errors; R13.18-R13.22, R13.24 (KNOWN_FINDINGS.txt).",
          technique="static: path/arm template extraction over MIR switch tables + dominator rules + panic audit"))
 CHECKS.append(
     dict(id="C18", level="other", engine="E1+E3",
@@ -111,7 +111,7 @@ CHECKS.append(
          text="The expressibility filter (kind tables of is_subject/is_object/is_bnode read from switch tables, is_jsonld as the "
               "conjunction over s/p/o/g, a quad skipped iff !is_jsonld on every path of process_quads) and a panic audit of the "
               "whole JSON-LD serializer (every unwrap, panic macro, map/vector/string index auto-discharged or audited by exact "
-              "key with its invariant). Plus the list bookkeeping clauses: unique-parent reset condition, singleton tests, suppression of a list node only in its parent's graph, the label-keeping rule (a blank node that names a graph or is a subject in several graphs is never folded into @list), compound literals folded only with a recorded unique parent, and the options builders copying every option from the field of the same name. Decides which quads are omitted, these necessary conditions of list folding, and that the engine has no unaudited panic site, not the round trip.",
+              "key with its invariant). Plus the list bookkeeping clauses: unique-parent reset condition, singleton tests, suppression of a list node only in its parent's graph, the label-keeping rule (a blank node that names a graph or is a subject in several graphs is never folded into @list), compound literals folded only with a recorded unique parent, list marks filtered before anything is rendered (a list containing itself), and the options builders copying every option from the field of the same name. Decides which quads are omitted, these necessary conditions of list folding, and that the engine has no unaudited panic site, not the round trip.",
          note="Trusted: json-ld/json-syntax; the invariants written in the audited table of rules/c12.py. Known finding: a typed rdf:List node is folded and its rdf:type triple dropped (the W3C algorithm is lossy here).",
          technique="static: switch-table extraction + path enumeration + MIR panic-site audit"))
 CHECKS.append(
